@@ -404,6 +404,130 @@ func bearerExtract(c *Ctx) {
 			return true
 		})
 	}
+	// The middleware VALUE (Session.lean): RequireBearerToken does nothing but return func(handler), which does
+	// nothing but return a fresh closure; the closure assigns to no variable declared outside it; the file
+	// holding it declares no package-level variable besides the two sentinel errors.
+	valueShape := []string{}
+	if mw != nil {
+		for _, st := range mw.Body.List {
+			if rs, ok := st.(*ast.ReturnStmt); ok && len(rs.Results) == 1 {
+				if fl, ok := rs.Results[0].(*ast.FuncLit); ok {
+					var pn []string
+					for _, f := range fl.Type.Params.List {
+						for _, id := range f.Names {
+							pn = append(pn, id.Name+" "+c.Src(f.Type))
+						}
+					}
+					valueShape = append(valueShape, "return func("+strings.Join(pn, ", ")+") {")
+					for _, st2 := range fl.Body.List {
+						if rs2, ok := st2.(*ast.ReturnStmt); ok && len(rs2.Results) == 1 {
+							if ce, ok := rs2.Results[0].(*ast.CallExpr); ok && c.Src(ce.Fun) == "http.HandlerFunc" && len(ce.Args) == 1 {
+								if _, ok := ce.Args[0].(*ast.FuncLit); ok {
+									valueShape = append(valueShape, "return http.HandlerFunc(<closure>)")
+									continue
+								}
+							}
+						}
+						valueShape = append(valueShape, c.Src(st2))
+					}
+					valueShape = append(valueShape, "}")
+					continue
+				}
+			}
+			valueShape = append(valueShape, c.Src(st))
+		}
+	}
+	c.Fact("bearer.middleware_value_shape", valueShape)
+	outerWrites := []string{}
+	if inner != nil {
+		declared := map[string]bool{}
+		for _, f := range inner.Type.Params.List {
+			for _, n := range f.Names {
+				declared[n.Name] = true
+			}
+		}
+		ast.Inspect(inner.Body, func(n ast.Node) bool {
+			switch x := n.(type) {
+			case *ast.AssignStmt:
+				if x.Tok == token.DEFINE {
+					for _, l := range x.Lhs {
+						if id, ok := l.(*ast.Ident); ok {
+							declared[id.Name] = true
+						}
+					}
+				}
+			case *ast.ValueSpec:
+				for _, id := range x.Names {
+					declared[id.Name] = true
+				}
+			}
+			return true
+		})
+		root := func(e ast.Expr) string {
+			for {
+				switch x := e.(type) {
+				case *ast.Ident:
+					return x.Name
+				case *ast.SelectorExpr:
+					e = x.X
+				case *ast.IndexExpr:
+					e = x.X
+				case *ast.StarExpr:
+					e = x.X
+				case *ast.ParenExpr:
+					e = x.X
+				default:
+					return "?"
+				}
+			}
+		}
+		ast.Inspect(inner.Body, func(n ast.Node) bool {
+			switch x := n.(type) {
+			case *ast.AssignStmt:
+				if x.Tok != token.DEFINE {
+					for _, l := range x.Lhs {
+						if r := root(l); !declared[r] && r != "_" {
+							outerWrites = append(outerWrites, c.Src(x))
+						}
+					}
+				}
+			case *ast.IncDecStmt:
+				if r := root(x.X); !declared[r] {
+					outerWrites = append(outerWrites, c.Src(x))
+				}
+			case *ast.GoStmt:
+				outerWrites = append(outerWrites, c.Src(x))
+			}
+			return true
+		})
+	}
+	c.Fact("bearer.closure_outer_writes", outerWrites)
+	pkgVars := []string{}
+	for _, f := range c.load("auth") {
+		has := false
+		for _, d := range f.Decls {
+			if fd, ok := d.(*ast.FuncDecl); ok && fd.Recv == nil && fd.Name.Name == "RequireBearerToken" {
+				has = true
+			}
+		}
+		if !has {
+			continue
+		}
+		for _, d := range f.Decls {
+			if gd, ok := d.(*ast.GenDecl); ok && gd.Tok == token.VAR {
+				for _, sp := range gd.Specs {
+					if vs, ok := sp.(*ast.ValueSpec); ok {
+						for _, id := range vs.Names {
+							pkgVars = append(pkgVars, id.Name)
+						}
+					}
+				}
+			}
+		}
+	}
+	sort.Strings(pkgVars)
+	c.Fact("bearer.package_vars_of_auth_go", pkgVars)
+
 	if inner == nil {
 		bad("RequireBearerToken: handler closure not found")
 		c.Fact("bearer.middleware_shape", "<missing>")
